@@ -23,6 +23,7 @@ def oifOf (s : St) : Option Nat :=
 structure G1 (s : St) : Prop where
   frameProc : s.frame.isSome → s.proc = none
   procBlock : s.proc.isSome → s.msgBlock = true
+  frameBlock : s.frame.isSome → s.startD ≠ .none → s.stopping = false → s.msgBlock = true
   ovOk : (runR C02.ovStep {} s.out).bad = false
   ovEq : (runR C02.ovStep {} s.out).pending = s.proc.isSome
   oifOk : (runR C03.oifStep {} s.out).bad = false
@@ -49,6 +50,6 @@ theorem emit_pres1 (o : Ob)
     (h3 : ∀ m, C03.clpStep m (.ob o) = m) : Pres1 (emit o) := by
   intro s hs
   refine ⟨?_, rfl⟩
-  constructor <;> simp only [emit, runR_cons, h1, h2, h3, oifOf] <;> first | exact hs.frameProc | exact hs.procBlock | exact hs.ovOk | exact hs.ovEq | exact hs.oifOk | exact hs.oifEq | exact hs.reqId | exact hs.commitId | exact hs.idsNe | exact hs.clpOk | exact hs.clpProcessed | exact hs.clpFrame | exact hs.clpProc
+  constructor <;> simp only [emit, runR_cons, h1, h2, h3, oifOf] <;> first | exact hs.frameProc | exact hs.procBlock | exact hs.frameBlock | exact hs.ovOk | exact hs.ovEq | exact hs.oifOk | exact hs.oifEq | exact hs.reqId | exact hs.commitId | exact hs.idsNe | exact hs.clpOk | exact hs.clpProcessed | exact hs.clpFrame | exact hs.clpProc
 
 end Afkak.Proofs.Consumer
